@@ -350,7 +350,8 @@ def check_timestamp_coverage(ctx, db):
     """A rewrite run visits every BGNLIB/BGNSTR: inside the record loop a return is either an error exit
     (it stores an error code or follows a failed record read) or the query-mode exit guarded by exactly `!new_timestamp`."""
     f = db.fn('gdstk::gds_timestamp')
-    loop = next((l for l in f.walk() if l.k == 'WhileStmt'), None)
+    # the record loop: the loop (of any form) that reads records
+    loop = next((l for l in f.walk() if l.k in ('WhileStmt', 'ForStmt', 'DoStmt') and any(c.k == 'CallExpr' and c.callee == 'gdstk::gdsii_read_record' for c in l.walk())), None)
     if loop is None:
         raise AnalysisBroken('gds_timestamp: record loop not found')
     rets = [r for r in loop.walk() if r.k == 'ReturnStmt']
@@ -371,9 +372,30 @@ def check_timestamp_coverage(ctx, db):
         bad.append('%s: return under `%s`' % (r.loc(), c))
     ctx.check(not bad and nq == 1 and len(rets) >= 3, 'R-MUSTPASS', 'gds_timestamp/rewrite-visits-all-records', loop.loc(), 'of %d returns inside the record loop, %d are error exits and one is the query-mode exit under `!new_timestamp`: a rewrite run only ends at ENDLIB' % (len(rets), len(rets) - 1),
               'a run that rewrites timestamps can return before ENDLIB without an error (later BGNSTR records keep their old stamp): %s' % '; '.join(bad[:2]))
-    brk = [b for b in loop.walk() if b.k == 'BreakStmt']
-    ok = len(brk) == 1 and any(a.k == 'IfStmt' and 'GdsiiRecord::ENDLIB' in norm(a.child('cond').text()) for a in brk[0].ancestors())
-    ctx.check(ok, 'R-MUSTPASS', 'gds_timestamp/ends-at-ENDLIB', loop.loc(), 'the loop is left only at ENDLIB')
+    # exits other than returns: a `break` under `record == ENDLIB`, or the loop condition `record != ENDLIB` (do-while form); both are
+    # decided by evaluating the condition for every record type
+    from .. import minieval
+    recs = {c_['n']: c_['v'] for c_ in db.enum('gdstk::GdsiiRecord')['consts']}
+
+    def holds_exactly_at_endlib(cnd, pol):
+        try:
+            for name, val in recs.items():
+                v = bool(minieval.value_at(db, cnd, typed={'GdsiiRecord': val, 'tm *': 1, 'uint64_t': 28, 'ErrorCode': 0, 'FILE *': 1}))
+                if (v == pol) != (name == 'ENDLIB'):
+                    return False
+            return True
+        except AnalysisBroken:
+            return False
+    brk = [b for b in loop.walk() if b.k == 'BreakStmt' and next((a for a in b.ancestors() if a.k in ('WhileStmt', 'ForStmt', 'DoStmt', 'SwitchStmt')), None) is loop]
+    exits = []
+    for b in brk:
+        pcs = [(c_, p_) for c_, p_ in tables.path_conds(b, stop=loop) if any(x.k in ('DeclRefExpr', 'MemberExpr') and 'GdsiiRecord' in (x.t or '') + (x.ct or '') for x in c_.walk())]
+        exits.append(len(pcs) >= 1 and any(holds_exactly_at_endlib(c_, p_) for c_, p_ in pcs))
+    lc = loop.child('cond')
+    if lc is not None and not (_strip_casts(lc).k == 'CXXBoolLiteralExpr' and _strip_casts(lc).v):
+        exits.append(holds_exactly_at_endlib(lc, False))
+    ok = len(exits) == 1 and all(exits)
+    ctx.check(ok, 'R-MUSTPASS', 'gds_timestamp/ends-at-ENDLIB', loop.loc(), 'the loop is left (other than by the error / query returns) only at ENDLIB')
 
 
 def check_options_untouched(ctx, db):
@@ -543,6 +565,8 @@ def run(ctx):
     ctx.attempt(check_payload_strings, ctx, db)
     ctx.attempt(check_record_buffers, ctx, db)
     ctx.attempt(check_decoder_conversions, ctx, db)
+    from . import C03   # loading with a target unit == loading natively and rescaling: scale factor, unit, precision and the default tolerance of the UNITS arm
+    ctx.attempt(C03.check_units_arm, ctx, db)
 
 
 MANIFEST = dict(
